@@ -29,6 +29,7 @@ use crate::common::NumStdDev;
 use crate::error::Error;
 use crate::hll::KEY_BITS_26;
 use crate::hll::estimator::HipEstimator;
+use crate::hll::estimator::check_kxq;
 use crate::hll::get_slot;
 use crate::hll::get_value;
 use crate::hll::pack_coupon;
@@ -372,6 +373,11 @@ impl Array4 {
                 }
                 let slot = get_slot(coupon) & ((1 << lg_config_k) - 1);
                 let value = get_value(coupon);
+                if aux.get(slot).is_some() {
+                    return Err(Error::deserial(format!(
+                        "corrupted: slot {slot} appears twice in the aux map"
+                    )));
+                }
                 aux.insert(slot, value);
                 num_read += 1;
             }
@@ -382,6 +388,46 @@ impl Array4 {
             }
             aux_map = Some(aux);
         }
+
+        // Nibbles, aux map and cached counters must describe one consistent register array:
+        // a nibble of AUX_TOKEN iff the slot has an aux entry, aux values that really are
+        // exceptions, and num_at_cur_min equal to the number of zero nibbles.
+        let k = 1u32 << lg_config_k;
+        let nibble = |slot: u32| {
+            let byte = data[(slot >> 1) as usize];
+            if slot & 1 == 0 { byte & 15 } else { byte >> 4 }
+        };
+        let mut num_tokens = 0u32;
+        let mut num_at_min = 0u32;
+        let mut max_raw = 0u8;
+        for slot in 0..k {
+            match nibble(slot) {
+                AUX_TOKEN => num_tokens += 1,
+                0 => num_at_min += 1,
+                raw => max_raw = max_raw.max(raw),
+            }
+        }
+        let aux_ok = match &aux_map {
+            None => num_tokens == 0,
+            Some(aux) => {
+                num_tokens == aux_count
+                    && aux.iter().all(|(slot, value)| {
+                        nibble(slot) == AUX_TOKEN
+                            && value <= 63
+                            && value as u32 >= cur_min as u32 + AUX_TOKEN as u32
+                    })
+            }
+        };
+        if cur_min as u32 + max_raw as u32 > 63 || num_at_min != num_at_cur_min || !aux_ok {
+            return Err(Error::deserial(
+                "corrupted: registers, aux map and counters are inconsistent",
+            ));
+        }
+        let value = |slot: u32| match nibble(slot) {
+            AUX_TOKEN => aux_map.as_ref().and_then(|m| m.get(slot)).unwrap_or(0),
+            raw => cur_min + raw,
+        };
+        check_kxq((0..k).map(value), kxq0, kxq1)?;
 
         // Create estimator and restore state
         let mut estimator = HipEstimator::new(lg_config_k);
